@@ -56,7 +56,8 @@ async fn open_typed<K: StorageKey + Clone, V: StorageValue>(case: &Case, g: &Geo
 fn on_event(kind: &'static str, a: u64, b: u64) {
     match kind {
         "shed" => {
-            hist::ev("shed", a, b, 0);
+            let (b, seq1) = (b & 0xff, b >> 8);
+            hist::ev("shed", a, b, seq1);
             hist::probe(match b {
                 1 => "shed_no_header_space",
                 2 => "shed_buffer_size_limit",
